@@ -78,6 +78,13 @@ CLAIMED = {
             "realisation); compose() applies `other` first; both data models implement the conversions with the abstract signature.",
             "Narrow claim: wiring only. Not decided: that pivot/unpivot are mutually inverse on data, Pandas/Polars agreement.",
             "DESIGN.md 6/C17"),
+    "C18": ("index-clean typestate dataflow over the Pandas executor (producers/cleaners/preservers table); partial evaluation of direction flags; CFG ordering of sort and limit (ast)",
+            "Every frame a Pandas step returns, every operand of a column-wise concat / positional attachment and every position "
+            "capture is index-clean (necessary for row-order independence because results are re-attached by position); the "
+            "direction flags of order_rows have the right polarity in all three back ends and iterate the sort keys; the limit is "
+            "applied after the sort and keeps the first rows.",
+            "Trusted: the pandas producer/cleaner/preserver table (sa/frames.py). Not decided: multiset invariance on data, ties.",
+            "DESIGN.md 6/C18"),
     "C19": ("ownership / may-alias dataflow on the statement CFG with fresh-producer cut-offs; in-place effect catalogue (ast)",
             "No in-place effect reaches an alias of a caller-owned frame in the table-source steps, RecordMap.transform and the "
             "user entry points, and table steps return fresh frames; none of the ~60 executor / SQL-generator / expression-actor "
@@ -142,6 +149,13 @@ CLAIMED = {
             "Trusted: Python call syntax; builder->constructor->field feeding computed by def-use. "
             "Not decided: black formatting, pickling, result equality after rebuild.",
             "DESIGN.md 6/C12"),
+    "C27": ("def-use consumption of partition_by/order_by/reverse by each window realisation; flag partial evaluation; CFG effect ordering; index-clean typestate; per-term window coverage (ast)",
+            "In Pandas, Polars and SQL the window is defined from all of partition_by, order_by and reverse with partition keys ahead "
+            "of order keys and the right polarity; the sort precedes the windowed computation; Pandas captures positions before the "
+            "sort and restores them before re-attachment on clean frames; every produced term is computed inside the window; the "
+            "null partition is kept.",
+            "Trusted: pandas/polars API contracts. Not decided: per-row values of each window function.",
+            "DESIGN.md 6/C27"),
 }
 
 NOT_APPLICABLE = {
